@@ -1798,6 +1798,11 @@ class SymExec:
             a = args[0]
             if a[0] in ("iter", "iter*"):
                 return a
+            if a[0] == "ptr" and a[1][0] == "L" and not a[2] and not a[3]:
+                v = self.deref(st, a)
+                if v[0] == "array" and len(v[1]) <= 8:
+                    # `for x in &local_array`: a shared borrow of a local array with known elements
+                    return ("iter", ("array", tuple(("ref", e) for e in v[1])))
             return ("iter", a)
         if name.endswith("Iterator>::next") or name == "core::iter::traits::iterator::Iterator::next":
             p = args[0]
